@@ -2,7 +2,7 @@ CONSTANTS
  MaxLen = 5
  GridArgs = "full"
  Deep = TRUE
- GraphIdx = {1, 3, 7}
+ GraphIdx = {1, 3, 7, 8}
 SPECIFICATION Spec
 INVARIANT AlwaysUp
 INVARIANT EmitReq
